@@ -46,7 +46,7 @@ const MASTER: &[char] = &[
     '\u{fe0f}', '👍', '🏻', '𠮷',
 ];
 /// characters the default input-text plugin rewrites (to 'a', 'b', 'ア', 'a')
-const NORMALISED: &[char] = &['Ａ', 'Ｂ', 'ｱ', 'A'];
+pub(crate) const NORMALISED: &[char] = &['Ａ', 'Ｂ', 'ｱ', 'A'];
 
 fn name_of(bit: u32) -> &'static str {
     NAMED.iter().find(|x| x.1 == bit).map(|x| x.0).unwrap()
@@ -69,32 +69,32 @@ fn names_of(mask: u32) -> Vec<&'static str> {
 }
 
 #[derive(Clone, Debug)]
-struct Info {
-    cat: u32,
-    invoke: bool,
-    group: bool,
-    length: u32,
+pub(crate) struct Info {
+    pub(crate) cat: u32,
+    pub(crate) invoke: bool,
+    pub(crate) group: bool,
+    pub(crate) length: u32,
 }
 
 #[derive(Clone, Debug)]
-struct Unk {
-    cat: u32,
-    l: u16,
-    r: u16,
-    cost: i16,
-    pos: usize,
+pub(crate) struct Unk {
+    pub(crate) cat: u32,
+    pub(crate) l: u16,
+    pub(crate) r: u16,
+    pub(crate) cost: i16,
+    pub(crate) pos: usize,
 }
 
 #[derive(Clone, Debug, Default)]
-struct Defs {
-    pool: Vec<char>,
-    assign: Vec<(char, u32)>,
-    char_def: String,
-    infos: Vec<Info>,
-    unks: Vec<Unk>,
-    unk_def: String,
+pub(crate) struct Defs {
+    pub(crate) pool: Vec<char>,
+    pub(crate) assign: Vec<(char, u32)>,
+    pub(crate) char_def: String,
+    pub(crate) infos: Vec<Info>,
+    pub(crate) unks: Vec<Unk>,
+    pub(crate) unk_def: String,
     /// the generator broke one of the files on purpose
-    broken: bool,
+    pub(crate) broken: bool,
 }
 
 impl Defs {
@@ -105,49 +105,49 @@ impl Defs {
 }
 
 #[derive(Clone, Debug)]
-struct SimpleP {
-    l: u16,
-    r: u16,
-    cost: i16,
-    pos: usize,
+pub(crate) struct SimpleP {
+    pub(crate) l: u16,
+    pub(crate) r: u16,
+    pub(crate) cost: i16,
+    pub(crate) pos: usize,
 }
 
 #[derive(Clone, Debug)]
-struct AltP {
-    set: Vec<char>,
-    min: usize,
-    max: Option<usize>,
+pub(crate) struct AltP {
+    pub(crate) set: Vec<char>,
+    pub(crate) min: usize,
+    pub(crate) max: Option<usize>,
 }
 
 #[derive(Clone, Debug)]
-struct RegexP {
-    l: u16,
-    r: u16,
-    cost: i16,
-    pos: usize,
-    alts: Vec<AltP>,
-    max_length: usize,
-    strict: bool,
+pub(crate) struct RegexP {
+    pub(crate) l: u16,
+    pub(crate) r: u16,
+    pub(crate) cost: i16,
+    pub(crate) pos: usize,
+    pub(crate) alts: Vec<AltP>,
+    pub(crate) max_length: usize,
+    pub(crate) strict: bool,
 }
 
 #[derive(Clone, Debug)]
-enum Prov {
+pub(crate) enum Prov {
     M,
     S,
     R,
 }
 
-const N_IDS: usize = 6;
+pub(crate) const N_IDS: usize = 6;
 
 fn pos_json(p: usize) -> String {
     format!("[{}]", join(POS[p].iter().map(|s| format!("\"{}\"", s)), ","))
 }
 
-fn mecab_json() -> String {
+pub(crate) fn mecab_json() -> String {
     r#"{"class":"com.worksap.nlp.sudachi.MeCabOovPlugin","charDef":"char.def","unkDef":"unk.def"}"#.to_string()
 }
 
-fn simple_json(p: &SimpleP) -> String {
+pub(crate) fn simple_json(p: &SimpleP) -> String {
     format!(
         r#"{{"class":"com.worksap.nlp.sudachi.SimpleOovPlugin","oovPOS":{},"leftId":{},"rightId":{},"cost":{}}}"#,
         pos_json(p.pos), p.l, p.r, p.cost
@@ -167,7 +167,7 @@ fn regex_text(alts: &[AltP]) -> String {
         .join("|")
 }
 
-fn regex_json(p: &RegexP) -> String {
+pub(crate) fn regex_json(p: &RegexP) -> String {
     format!(
         r#"{{"class":"com.worksap.nlp.sudachi.RegexOovProvider","oovPOS":{},"leftId":{},"rightId":{},"cost":{},"regex":"{}","maxLength":{},"boundaries":"{}"}}"#,
         pos_json(p.pos), p.l, p.r, p.cost, regex_text(&p.alts).replace('\\', "\\\\"), p.max_length,
@@ -175,7 +175,7 @@ fn regex_json(p: &RegexP) -> String {
     )
 }
 
-fn small_id(rng: &mut Rng) -> u16 {
+pub(crate) fn small_id(rng: &mut Rng) -> u16 {
     rng.below(N_IDS) as u16
 }
 
@@ -183,7 +183,7 @@ fn small_cost(rng: &mut Rng) -> i16 {
     if rng.chance(1, 10) { *rng.pick(&[i16::MAX, i16::MIN, -1, 0]) } else { rng.below(9000) as i16 - 500 }
 }
 
-fn gen_defs(rng: &mut Rng, with_norm: bool, edge_ids: bool) -> Defs {
+pub(crate) fn gen_defs(rng: &mut Rng, with_norm: bool, edge_ids: bool) -> Defs {
     let mut d = Defs::default();
     let k = rng.range(2, 4);
     let mut classes: Vec<u32> = vec![];
@@ -307,7 +307,7 @@ fn gen_defs(rng: &mut Rng, with_norm: bool, edge_ids: bool) -> Defs {
     d
 }
 
-fn gen_text(rng: &mut Rng, pool: &[char], extra: &[char]) -> String {
+pub(crate) fn gen_text(rng: &mut Rng, pool: &[char], extra: &[char]) -> String {
     let long = rng.chance(1, 12);
     let n = if long { rng.range(60, 140) } else { rng.range(1, 10) };
     let sub: Vec<char> = if long {
@@ -441,13 +441,13 @@ fn expect_regex(p: &RegexP, chars: &[char], runs: &[usize], off: usize, has: &dy
 
 // ---------------------------------------------------------------------------------------------
 
-struct Ctx {
-    wd: Workdir,
-    system: Vec<u8>,
-    poslist_hex: String,
+pub(crate) struct Ctx {
+    pub(crate) wd: Workdir,
+    pub(crate) system: Vec<u8>,
+    pub(crate) poslist_hex: String,
 }
 
-fn fixed_rows() -> Vec<Row> {
+pub(crate) fn fixed_rows() -> Vec<Row> {
     (0..POS.len()).map(|p| Row::simple(&format!("ん{}", p), (p % N_IDS) as i32, (p % N_IDS) as i32, 100, p)).collect()
 }
 
@@ -494,7 +494,7 @@ fn buffer_source() -> String {
 }
 
 /// does `InputBuffer::build` let a banned NOOOVBOW2 character ban its successor too (repaired code)?
-fn source_chains_bow_ban() -> bool {
+pub(crate) fn source_chains_bow_ban() -> bool {
     static P: std::sync::OnceLock<bool> = std::sync::OnceLock::new();
     *P.get_or_init(|| buffer_source().contains("next_bow = !cat.intersects(CategoryType::NOOOVBOW2)"))
 }
@@ -512,7 +512,7 @@ fn source_unk_ge() -> bool {
     })
 }
 
-fn source_is_forward() -> bool {
+pub(crate) fn source_is_forward() -> bool {
     static P: std::sync::OnceLock<bool> = std::sync::OnceLock::new();
     *P.get_or_init(|| {
         let toml = std::fs::read_to_string(format!("{}/harness/Cargo.toml", std::env::var("VERIF_ROOT").unwrap_or_else(|_| "/verif".into()))).unwrap_or_default();
@@ -719,7 +719,7 @@ fn len_mask(lens: &[usize]) -> u64 {
     lens.iter().fold(0u64, |m, &l| m | 1u64 << (l - 1).min(63))
 }
 
-fn prov_tokens(kind: &Prov, d: &Defs, sp: &SimpleP, rp: &RegexP, ctx: &Ctx) -> String {
+pub(crate) fn prov_tokens(kind: &Prov, d: &Defs, sp: &SimpleP, rp: &RegexP, ctx: &Ctx) -> String {
     match kind {
         Prov::M => format!("mdef={} unk={} poslist={} nl={} nr={} unkge={}", hex(d.char_def.as_bytes()), hex(d.unk_def.as_bytes()), ctx.poslist_hex, N_IDS, N_IDS, if source_unk_ge() { 1 } else { 0 }),
         Prov::S => format!("sp={}:{}:{}:{}", sp.l, sp.r, sp.cost, sp.pos),
@@ -832,15 +832,15 @@ fn case_prov(run: &mut Run, ctx: &Ctx, idx: usize, d: &Defs, text: &str, kind: P
     run.case(idx, "prov", &payload, &format!("ok {}", answers.join(";")), produced > 0);
 }
 
-struct LatCase {
-    provs: Vec<Prov>,
-    sp: SimpleP,
-    rp: RegexP,
-    lex: Vec<Row>,
-    normalise: bool,
+pub(crate) struct LatCase {
+    pub(crate) provs: Vec<Prov>,
+    pub(crate) sp: SimpleP,
+    pub(crate) rp: RegexP,
+    pub(crate) lex: Vec<Row>,
+    pub(crate) normalise: bool,
 }
 
-fn gen_lat(rng: &mut Rng, d: &Defs) -> LatCase {
+pub(crate) fn gen_lat(rng: &mut Rng, d: &Defs) -> LatCase {
     let np = rng.range(1, 4);
     let mut provs: Vec<Prov> = (0..np).map(|_| match rng.below(3) { 0 => Prov::M, 1 => Prov::S, _ => Prov::R }).collect();
     if rng.chance(3, 4) {
